@@ -38,6 +38,17 @@ def install(eng):
     m(r'^(std::vec::|alloc::vec::)?Vec::len$', m_vec_len)
     m(r'^bumpalo::collections::Vec::len$', m_vec_len)
     m(r'^core::slice::<impl \[.*\]>::len$', lambda e, a, c: e.slice_len(as_slice(e, a[0])))
+
+    def m_split_at(eng, args, ctx):
+        s = as_slice(eng, args[0])
+        mid = args[1]
+        ln = eng.slice_len(s)
+        if not eng.fork_bool(z3.ULE(mid, ln)):
+            raise PathEnd('panic', 'split_at: mid > len')
+        a = SliceRef(s.seq, s.start, mid)
+        b = SliceRef(s.seq, z3.simplify(s.start + mid), z3.simplify(ln - mid))
+        return Struct('()', {0: Cell(a), 1: Cell(b)}, None)
+    m(r'^core::slice::<impl \[.*\]>::split_at(_mut)?$', m_split_at)
     m(r'^(std::vec::|alloc::vec::)?Vec::is_empty$', lambda e, a, c: as_bool(z3.simplify(seq_len(e, vec_of(a[0], e)) == 0)))
     m(r'^core::slice::<impl \[.*\]>::is_empty$', lambda e, a, c: as_bool(z3.simplify(e.slice_len(as_slice(e, a[0])) == 0)))
     def bounds(eng, idx, ln, what):
